@@ -138,6 +138,14 @@ def CBody.resMeaningF : CBody → Option Fml
         | .exact => Fml.eq total (numT iv.2)
         | .max => Fml.le total (numT iv.2)
         | .min => Fml.ge total (numT iv.2))))
+  | .periodicallyUnavailable busy ivs period start offset end_ =>
+      -- the window of the period the busy interval starts in (C04_periodic_own_period; the next period's
+      -- window is finding F13), unless masked by `start` / `end`
+      some (.and (ivs.flatMap (fun iv => busy.map (fun b =>
+        let shift := Term.add (numT offset) (.mul (numT period) (.div (.sub b.s (numT offset)) (numT period)))
+        Fml.or ([Fml.ge b.s (.add (numT iv.2) shift), Fml.le b.e (.add (numT iv.1) shift)] ++
+          (if start > 0 then [Fml.le b.e (numT start)] else []) ++
+          (match end_ with | some en => [Fml.ge b.s (numT en)] | none => []))))))
   | .sameWorkers s1 s2 =>
       some (.and ((s1.workers.filter (fun w => s2.workers.contains w)).map (fun w =>
         Fml.iff (.bvar (.sel s1.id w)) (.bvar (.sel s2.id w)))))
@@ -157,6 +165,16 @@ def specC04 (st : State) : List Fml :=
 def maxOfF (v : Term) (xs : List Term) : Fml := .and (Fml.or (xs.map (fun x => Fml.eq v x)) :: xs.map (fun x => Fml.ge v x))
 def minOfF (v : Term) (xs : List Term) : Fml := .and (Fml.or (xs.map (fun x => Fml.eq v x)) :: xs.map (fun x => Fml.le v x))
 
+def Cost.isConst : Cost → Bool
+  | .const _ => true
+  | _ => false
+
+/-- cost per busy interval of a resource with a constant cost per period: `k · (end − start)` -/
+def constCostTerms (it : Cost × List BusyRef) : List Term :=
+  match it.1 with
+  | .const k => it.2.map (fun b => Term.mul (numT k) (.sub b.e b.s))
+  | _ => []
+
 def IBody.defF (v : Term) : IBody → Option Fml
   | .expr t _ => some (.eq v t)
   | .utilization busy (some h) => some (.eq v (.div (.mul (numT 100) (sumOrZero (busy.map (fun b => Term.sub b.e b.s)))) (numT h)))
@@ -173,10 +191,7 @@ def IBody.defF (v : Term) : IBody → Option Fml
   | .minBuffer levels => some (minOfF v levels)
   | .resourceCost items =>
       -- constant costs only (polynomial / linear costs make the definition non linear)
-      if items.all (fun it => match it.1 with | .const _ => true | _ => false) then
-        some (.eq v (sumOrZero (items.flatMap (fun it => match it.1 with
-          | .const k => it.2.map (fun b => Term.mul (numT k) (.sub b.e b.s))
-          | _ => []))))
+      if items.all (fun it => it.1.isConst) then some (.eq v (sumOrZero (items.flatMap constCostTerms)))
       else none
   | _ => none
 
